@@ -1,14 +1,270 @@
 /-
   Property C16 — GEVP and matrix pencil satisfy the eigen-equation and recover exact spectra.
-  The mathematical backbone (exact N-state spectrum solves the generalised eigenproblem, projected
-  correlator = exp(-E (t - t0)), Cholesky route equivalence, ordering, Hankel / Vandermonde
-  factorisation behind the matrix-pencil method, pruning, symmetrisation) is in PV/Props/C16Alg.lean.
+
+  Two layers.
+  * PV/Props/C16Alg.lean: the mathematics (exact N-state spectrum solves the generalised eigenproblem,
+    projected correlator = exp(-E (t - t0)), Cholesky route equivalence, ordering, Hankel / Vandermonde
+    factorisation behind the matrix-pencil method, pruning, symmetrisation).
+  * this file: theorems about the executable model PV/Model/Gevp.lean of pyerrors' own logic around the
+    eigen-solver — which entries of the result are undefined, that state 0 is the LAST vector LAPACK
+    returns, that the permutation search of `_sort_vectors` only re-orders and recovers the reference
+    labelling, the refusals, and that the Hankel slicing of the pencil method produces the two shifted
+    Hankel matrices the factorisation theorem is about.  The model is run against pyerrors on every case.
 -/
 import PV.Props.C16Alg
+import PV.Proofs.C16Lemmas
+
+set_option linter.unusedSimpArgs false
+set_option linter.unusedSectionVars false
 
 namespace PV
+open Scalar
+
+variable {α : Type} [Scalar α]
 
 /-- `[::-1]` on the ascending eigenvalue order puts the largest first: state index bookkeeping -/
 theorem c16_reverse_index (n i : Nat) (h : i < n) : n - 1 - (n - 1 - i) = i := by omega
+
+/-! ### `_GEVP_solver`: state `i` is the `(N-1-i)`-th vector of the ascending decomposition -/
+
+/-- eigh route: `eigh(Gt, G0)[1].T[::-1]` — state `i` is LAPACK's vector `N-1-i`; with
+    `c16_order_reverse` (ascending eigenvalues) state 0 carries the largest eigenvalue -/
+theorem c16_solver_descending (asc : List (List α)) (i : Nat) (hi : i < asc.length) :
+    (solverOut none asc)[i]? = asc[asc.length - 1 - i]? := by
+  simp [solverOut, List.getElem?_reverse hi]
+
+/-- Cholesky route: state `i` is `L⁻ᵀ w_{N-1-i}` (the back-substitution of `c16_cholesky_equivalence`) -/
+theorem c16_solver_descending_cholesky (Li : List (List α)) (asc : List (List α)) (i : Nat) (hi : i < asc.length) :
+    (solverOut (some Li) asc)[i]? = (asc[asc.length - 1 - i]?).map (tMulVec Li) := by
+  have : i < (asc.map (tMulVec Li)).length := by simpa using hi
+  simp [solverOut, List.getElem?_reverse this]
+
+/-- non-vacuity: three "vectors" in ascending order come out reversed -/
+example : solverOut none ([[1], [2], [3]] : List (List Rat)) = [[3], [2], [1]] := by decide
+
+/-! ### `Corr.GEVP`: which entries are undefined -/
+
+/-- `all_vecs[t]` is undefined for `t ≤ t0` and is the solver's answer at `t` afterwards -/
+theorem c16_allVecs_entry (g : GevpIn α) (t : Nat) (ht : t < g.T) :
+    g.allVecs[t]? = some (if t ≤ g.t0 then none else g.solve t) := by
+  simp [GevpIn.allVecs, ht]
+
+theorem c16_allVecs_length (g : GevpIn α) : g.allVecs.length = g.T := by
+  simp [GevpIn.allVecs]
+
+/-- an undefined timeslice yields no vectors -/
+theorem c16_solve_undefined (g : GevpIn α) (t : Nat) (h : g.isDef t = false) : g.solve t = none := by
+  simp [GevpIn.solve, h]
+
+/-- a defined timeslice yields the reversed (back-substituted) decomposition of that timeslice -/
+theorem c16_solve_defined (g : GevpIn α) (t : Nat) (h : g.isDef t = true) (vs : List (List α))
+    (hasc : g.asc.getD t none = some vs) :
+    g.solve t = some (solverOut (if g.cholesky then some g.cholInv else none) vs) := by
+  rw [List.getD_eq_getElem?_getD] at hasc
+  simp [GevpIn.solve, h, hasc]
+
+/-- entry `(s, t)` of the re-ordered result is vector `s` of timeslice `t`, undefined where the slice is -/
+theorem c16_reorder_entry (N : Nat) (av : List (Option (List (List α)))) (s t : Nat) (hs : s < N) (ht : t < av.length) :
+    ((reorder N av)[s]?.bind (fun l => l[t]?)) = some ((av[t]).bind (fun vs => vs[s]?)) := by
+  simp [reorder, hs, ht]
+
+/-- **C16 (result structure, sort by eigenvalue).**  For an admissible request the result has, for every
+    state `s < N` and timeslice `t < T`: undefined if `t ≤ t0` or the timeslice is undefined, otherwise the
+    `s`-th vector of the descending decomposition at `t`. -/
+theorem c16_gevp_eigenvalue (g : GevpIn α) (hN : g.N ≠ 1) (hts : ∀ ts, g.ts = some ts → g.t0 < ts)
+    (ht0 : g.t0 < g.T) (hdef : g.isDef g.t0 = true) (hpd : g.pd = true) (hsort : g.sort = .eigenvalue) :
+    gevp g = .ok (.perT (reorder g.N g.allVecs)) := by
+  unfold gevp
+  have h1 : (g.N == 1) = false := by simpa using hN
+  cases hts' : g.ts with
+  | none => simp [h1, hts', Nat.not_le.mpr ht0, hdef, hpd, hsort, pure, Except.pure, bind, Except.bind, throw, throwThe, MonadExceptOf.throw]
+  | some ts =>
+    have := hts ts hts'
+    simp [h1, hts', Nat.not_le.mpr ht0, Nat.not_le.mpr this, hdef, hpd, hsort, pure, Except.pure, bind, Except.bind, throw, throwThe, MonadExceptOf.throw]
+
+/-! ### refusals -/
+
+theorem c16_gevp_refuses_single (g : GevpIn α) (h : g.N = 1) : ∃ m, gevp g = .error (.valueError m) := by
+  refine ⟨"GEVP methods only works on correlator matrices and not single correlators.", ?_⟩
+  unfold gevp
+  simp [h, bind, Except.bind, throw, throwThe, MonadExceptOf.throw]
+
+theorem c16_gevp_refuses_ts_le_t0 (g : GevpIn α) (hN : g.N ≠ 1) (ts : Nat) (h : g.ts = some ts) (hle : ts ≤ g.t0) :
+    ∃ m, gevp g = .error (.valueError m) := by
+  refine ⟨"ts has to be larger than t0.", ?_⟩
+  unfold gevp
+  have h1 : (g.N == 1) = false := by simpa using hN
+  simp [h1, h, hle, bind, Except.bind, throw, throwThe, MonadExceptOf.throw, pure, Except.pure]
+
+theorem c16_gevp_refuses_undefined_t0 (g : GevpIn α) (hN : g.N ≠ 1) (hts : ∀ ts, g.ts = some ts → g.t0 < ts)
+    (ht0 : g.t0 < g.T) (hdef : g.isDef g.t0 = false) : gevp g = .error .attributeError := by
+  unfold gevp
+  have h1 : (g.N == 1) = false := by simpa using hN
+  cases hts' : g.ts with
+  | none => simp [h1, hts', Nat.not_le.mpr ht0, hdef, pure, Except.pure, bind, Except.bind, throw, throwThe, MonadExceptOf.throw]
+  | some ts =>
+    have := hts ts hts'
+    simp [h1, hts', Nat.not_le.mpr ht0, Nat.not_le.mpr this, hdef, pure, Except.pure, bind, Except.bind, throw, throwThe, MonadExceptOf.throw]
+
+/-! ### `_sort_vectors` -/
+
+/-- **C16 (the eigenvector sort only re-orders).**  Whatever the scores are, the slice returned for a
+    timeslice is a permutation of the vectors found at that timeslice: nothing is lost or duplicated. -/
+theorem c16_sort_slice_perm (ref vs : List (List α)) (prev bp : Option (List Nat)) (hlen : vs.length = ref.length)
+    (hprev : ∀ q, prev = some q → q ∈ perms ref.length)
+    (h : bestPerm (permScore ref vs) (perms ref.length) prev = bp) (q : List Nat) (hq : bp = some q) :
+    ((applyPerm vs q).map (fun o => o.getD [])).Perm vs := by
+  have hmem : q ∈ perms ref.length := by
+    rcases bestPerm_mem (permScore ref vs) (perms ref.length) prev with h1 | ⟨p, hp, h2⟩
+    · exact hprev q (by rw [← h1, h, hq])
+    · have : some q = some p := by rw [← hq, ← h, h2]
+      cases this
+      exact hp
+  have hperm := applyPerm_perm vs q (by rw [hlen]; exact perms_perm hmem)
+  have := hperm.map (fun o : Option (List α) => o.getD [])
+  simpa [List.map_map, Function.comp_def] using this
+
+/-- **C16 (`_sort_vectors` as a whole).**  For every list of timeslices (any length, any pattern of undefined
+    slices, whatever the scores): the result has the same undefined pattern, and every defined slice is a
+    permutation of the corresponding input slice. -/
+theorem c16_sortVectors_perm (ref : List (List α)) (ts : Nat) :
+    ∀ (l : List (Option (List (List α)))) (t : Nat) (prev : Option (List Nat)) (r : List (Option (List (List α)))),
+      (∀ vs, some vs ∈ l → vs.length = ref.length) →
+      (∀ q, prev = some q → q ∈ perms ref.length) →
+      sortVectorsAux ref ts t l prev = .ok r →
+      List.Forall₂ SliceRel l r := by
+  intro l
+  induction l with
+  | nil =>
+    intro t prev r _ _ h
+    simp [sortVectorsAux] at h
+    cases h
+    exact List.Forall₂.nil
+  | cons a rest ih =>
+    intro t prev r hlen hprev h
+    cases a with
+    | none =>
+      simp only [sortVectorsAux, bind, Except.bind, pure, Except.pure] at h
+      cases hrec : sortVectorsAux ref ts (t + 1) rest prev with
+      | error e => rw [hrec] at h; cases h
+      | ok r' =>
+        rw [hrec] at h
+        cases h
+        exact List.Forall₂.cons (by simp [SliceRel]) (ih (t + 1) prev r' (fun vs hvs => hlen vs (by simp [hvs])) hprev hrec)
+    | some vs =>
+      simp only [sortVectorsAux] at h
+      by_cases hts : (t == ts) = true
+      · rw [if_pos hts] at h
+        simp only [bind, Except.bind, pure, Except.pure] at h
+        cases hrec : sortVectorsAux ref ts (t + 1) rest prev with
+        | error e => rw [hrec] at h; cases h
+        | ok r' =>
+          rw [hrec] at h
+          cases h
+          exact List.Forall₂.cons (by simp [SliceRel]) (ih (t + 1) prev r' (fun vs hvs => hlen vs (by simp [hvs])) hprev hrec)
+      · rw [if_neg hts] at h
+        cases hb : bestPerm (permScore ref vs) (perms ref.length) prev with
+        | none => rw [hb] at h; cases h
+        | some bp =>
+          rw [hb] at h
+          simp only [bind, Except.bind, pure, Except.pure] at h
+          have hbp := bestPerm_some_mem _ _ prev hprev bp hb
+          cases hrec : sortVectorsAux ref ts (t + 1) rest (some bp) with
+          | error e => rw [hrec] at h; cases h
+          | ok r' =>
+            rw [hrec] at h
+            cases h
+            refine List.Forall₂.cons ?_ (ih (t + 1) (some bp) r' (fun vs hvs => hlen vs (by simp [hvs])) (fun q hq => by cases hq; exact hbp) hrec)
+            simp only [SliceRel]
+            exact c16_sort_slice_perm ref vs prev (some bp) (hlen vs (by simp)) hprev hb bp rfl
+
+/-- the same for the entry point (`reference = vec_set[ts]`) -/
+theorem c16_sortVectors_perm_top (vecSet : List (Option (List (List α)))) (ts : Nat) (ref : List (List α))
+    (r : List (Option (List (List α)))) (href : vecSet.getD ts none = some ref)
+    (hlen : ∀ vs, some vs ∈ vecSet → vs.length = ref.length) (h : sortVectors vecSet ts = .ok r) :
+    List.Forall₂ SliceRel vecSet r := by
+  unfold sortVectors at h
+  split at h
+  · cases h
+  · rw [href] at h
+    exact c16_sortVectors_perm ref ts vecSet 0 none r hlen (fun q hq => by cases hq) h
+
+/-- **C16 (the eigenvector sort recovers the reference labelling).**  Over the reals: if the scores single
+    out one candidate `σ` (positive score, all others zero — the situation `c16_sort_score_alg` establishes
+    for vectors that are non-zero multiples of the reference vectors in the order `σ`), the search returns
+    `σ` whatever it held before, and the slice puts vector `k` at state `σ[k]`. -/
+theorem c16_sort_search_unique (score : List Nat → ℝ) (ps : List (List Nat)) (prev : Option (List Nat))
+    (σ : List Nat) (hσ : σ ∈ ps) (hpos : 0 < score σ) (hz : ∀ p ∈ ps, p ≠ σ → score p = 0) :
+    bestPerm score ps prev = some σ :=
+  bestPerm_unique score ps prev σ hσ hpos hz
+
+/-- vector `k` lands at state `σ[k]` -/
+theorem c16_applyPerm_places {β : Type} (vs : List β) (σ : List Nat) (hnd : σ.Nodup) (k : Nat) (hk : k < σ.length)
+    (hlt : σ[k] < σ.length) : (applyPerm vs σ)[σ[k]]? = some vs[k]? := by
+  unfold applyPerm
+  rw [List.getElem?_map, List.getElem?_range hlt]
+  simp [List.Nodup.idxOf_getElem hnd k hk]
+
+/-- the scores of exact data: with `v_k = c_k · ref_{σ k}` (non-zero `c_k`, independent reference vectors) the
+    product of determinants is non-zero exactly for the assignment `τ = σ` -/
+theorem c16_sort_score_alg {n : ℕ} (M : Matrix (Fin n) (Fin n) ℝ) (hM : M.det ≠ 0) (c : Fin n → ℝ)
+    (hc : ∀ k, c k ≠ 0) (σ τ : Equiv.Perm (Fin n)) :
+    (∏ k, |(M.updateRow (τ k) (c k • M (σ k))).det|) ≠ 0 ↔ τ = σ := by
+  constructor
+  · intro h
+    by_contra hne
+    obtain ⟨k, hk⟩ : ∃ k, τ k ≠ σ k := by
+      by_contra hall
+      push Not at hall
+      exact hne (Equiv.ext hall)
+    apply h
+    apply Finset.prod_eq_zero (Finset.mem_univ k)
+    rw [Matrix.det_updateRow_smul, abs_eq_zero, mul_eq_zero]
+    right
+    apply Matrix.det_zero_of_row_eq hk
+    rw [Matrix.updateRow_self, Matrix.updateRow_ne (Ne.symm hk)]
+  · rintro rfl
+    rw [Finset.prod_ne_zero_iff]
+    intro k _
+    rw [Matrix.det_updateRow_smul, Matrix.updateRow_eq_self]
+    exact abs_ne_zero.mpr (mul_ne_zero (hc k) hM)
+
+/-- non-vacuity of `c16_sort_score_alg`: the identity matrix, a 3-cycle -/
+example : (1 : Matrix (Fin 3) (Fin 3) ℝ).det ≠ 0 := by simp
+
+/-! ### matrix pencil: the Hankel slicing -/
+
+/-- **C16 (pencil matrices).**  `y1[i][j] = y[i + j]` and `y2[i][j] = y[i + j + 1]` for `i < n - p`, `j < p`:
+    the two matrices built by `scipy.linalg.hankel(data[:n-p], data[n-p-1:])[:, :p]` / `[:, 1:]` are the Hankel
+    matrices with offsets 0 and 1 of `c16_hankel_factor`. -/
+theorem c16_pencil_entries (y : List α) (p i j : Nat) (hp : p < y.length) (hi : i < y.length - p) (hj : j < p) :
+    (((pencil y p).1.getD i []).getD j 0 = y.getD (i + j) 0) ∧
+    (((pencil y p).2.getD i []).getD j 0 = y.getD (i + j + 1) 0) := by
+  have hj1 : j < p + 1 := by omega
+  have hj2 : j + 1 < p + 1 := by omega
+  have hmin : min (y.length - p) y.length = y.length - p := by omega
+  have hr : y.length - (y.length - p - 1) = p + 1 := by omega
+  constructor
+  · simp [pencil, hankelPy, List.getD_eq_getElem?_getD, hi, hj, hj1, hmin, hr, List.getElem?_take, List.getElem?_drop]
+    split
+    · rfl
+    · congr 2 <;> omega
+  · simp [pencil, hankelPy, List.getD_eq_getElem?_getD, hi, hj, hj2, hmin, hr, List.getElem?_take, List.getElem?_drop]
+    split
+    · congr 2 <;> omega
+    · congr 2 <;> omega
+
+/-- non-vacuity: n = 6, p = 3 -/
+example : pencil ([10, 11, 12, 13, 14, 15] : List Rat) 3
+    = ([[10, 11, 12], [11, 12, 13], [12, 13, 14]], [[11, 12, 13], [12, 13, 14], [13, 14, 15]]) := by decide
+
+/-! ### `Corr.projected` -/
+
+/-- the projected correlator is undefined exactly where the matrix or the vector is -/
+theorem c16_projected_defined (content : List (Option (List (List α)))) (vs : List (Option (List α))) (t : Nat)
+    (ht : t < content.length) :
+    ((projectedList content vs)[t]? = some none) ↔ (content.getD t none = none ∨ vs.getD t none = none) := by
+  simp only [projectedList, List.getElem?_map, List.getElem?_range ht, Option.map_some, Option.some.injEq]
+  cases content.getD t none <;> cases vs.getD t none <;> simp
 
 end PV
